@@ -265,6 +265,7 @@ extern thread_local ChaosTls t_chaos;
 // engine callback, called first at every point (arrival stamps, poisoning, ...)
 using PointCallback = void (*)(int id, const void *obj);
 extern PointCallback g_point_cb;
+extern PointCallback g_point_post_cb;  // called last at every point, after any injected delay
 
 // aggregated at thread end
 struct ChaosTotals {
@@ -521,6 +522,7 @@ ChaosPlan g_plan{};
 std::atomic<uint64_t> g_ops_done{0};
 thread_local ChaosTls t_chaos{};
 PointCallback g_point_cb = nullptr;
+PointCallback g_point_post_cb = nullptr;
 ChaosTotals g_chaos_totals;
 PreemptTable g_preempt;
 std::atomic<uint64_t> g_preempt_stall_ns{0};
@@ -629,10 +631,12 @@ Point(int id, const void *obj) noexcept
 {
   auto &t = vf::t_chaos;
   if (vf::g_point_cb != nullptr) vf::g_point_cb(id, obj);
-  if (!t.enabled || id < 0 || id >= vf::kMaxPoint) return;
-  ++t.hits[id];
-  const auto p = vf::g_plan.prob[id];
-  if (p != 0 && (t.rng.Next() & 0xFFFF) * (t.prob_div ? t.prob_div : 1U) < p) vf::ChaosDelay(id);
+  if (t.enabled && id >= 0 && id < vf::kMaxPoint) {
+    ++t.hits[id];
+    const auto p = vf::g_plan.prob[id];
+    if (p != 0 && (t.rng.Next() & 0xFFFF) * (t.prob_div ? t.prob_div : 1U) < p) vf::ChaosDelay(id);
+  }
+  if (vf::g_point_post_cb != nullptr) vf::g_point_post_cb(id, obj);  // last thing before the library code continues
 }
 }  // namespace dbgroup::verif
 #endif  // VERIF_MAIN_TU
